@@ -221,8 +221,8 @@ MUTANTS = [
      "                    ckey, cion = self.unsuffix(iokey, sep=sep)\n                    if ckey != key:  # past key\n                        break",
      "                    ckey, cion = self.unsuffix(iokey, sep=sep)\n                    if not ckey.startswith(key):  # past key\n                        break"),
     ('addioval-counts-instead-of-last-ordinal', 'hio/base/during.py',
-     "                    if ckey == key:  # found one\n                        ion = cion + 1  # next ion is increment of found cion\n                    else:  # prev entry if any was the last entry for key\n                        break  # done\n            iokey = self.suffix(key, ion, sep=sep)  # ion is 1 after last",
-     "                    if ckey == key:  # found one\n                        ion = ion + 1\n                    else:  # prev entry if any was the last entry for key\n                        break  # done\n            iokey = self.suffix(key, ion, sep=sep)  # ion is 1 after last"),
+     "                    if ckey == key:  # found one\n                        ion = cion + 1  # next ion is increment of found cion\n                    else:  # prev entry if any was the last entry for key\n                        break  # done\n\n            iokey = self.suffix(key, ion, sep=sep)  # ion is 1 after last",
+     "                    if ckey == key:  # found one\n                        ion = ion + 1\n                    else:  # prev entry if any was the last entry for key\n                        break  # done\n\n            iokey = self.suffix(key, ion, sep=sep)  # ion is 1 after last"),
     ('putval-overwrites', 'hio/base/during.py',
      "                return (txn.put(key, val, overwrite=False))",
      "                return (txn.put(key, val, overwrite=True))"),
